@@ -123,3 +123,14 @@ Theorem C01_sealed_test_alone_refuted :
   = ([(3, true); (1, false)], None, (1%nat, 1, Running, 2)).
 Proof. exact sealed_test_alone_skips. Qed.
 Print Assumptions C01_sealed_test_alone_refuted.
+
+(* ... and it does not stall: with the writers quiet and no seal outstanding, a reader that is behind the
+   end of the log delivers its next message within 4*(number of segments)+2 of its own steps -- it
+   neither parks nor spins. (A reader that has consumed everything may spin at the end of a full,
+   not yet rolled segment: waitForData returns at once there; that costs CPU, not messages.) *)
+Theorem C01_waiting_reader_makes_progress : forall cap sched,
+  let s := trun tcode (tinit cap) sched in
+  s_pending s = None -> has_data s ->
+  exists n, (n <= 4 * length (s_segs s) + 2)%nat /\ t_got (s_rd (riter n s)) = t_got (s_rd s) + 1.
+Proof. exact reader_progress. Qed.
+Print Assumptions C01_waiting_reader_makes_progress.
